@@ -61,6 +61,7 @@ M = [
  ("C04", "span_first_end", BA, 'kernel_time = merged_kernels.iloc[-1]["end"] - merged_kernels.iloc[0]["ts"]', 'kernel_time = merged_kernels.iloc[0]["end"] - merged_kernels.iloc[0]["ts"]', "span of the first group only"),
  ("C04", "noncompute_plus", BA, "non_compute_time = kernel_time - compute_time - idle_time", "non_compute_time = kernel_time - compute_time + idle_time", "parts do not sum"),
  ("C04", "compute_is_comm", BA, 'gpu_kernels["kernel_type"].eq(KernelType.COMPUTATION.name)\n                ].copy()\n            )\n            compute_time', 'gpu_kernels["kernel_type"].eq(KernelType.COMMUNICATION.name)\n                ].copy()\n            )\n            compute_time', "wrong kernel class"),
+ ("C04", "device_gt0", BA, '            gpu_kernels = trace_df[trace_df["stream"].ne(-1)].copy()\n            idle_time, kernel_time', '            gpu_kernels = trace_df[trace_df["stream"].gt(0)].copy()\n            idle_time, kernel_time', "device activities on stream 0 ignored (C04 does not presuppose positive stream ids)"),
  ("C04", "merge_desc", U, 'kernel_df.sort_values(by="ts", inplace=True)', 'kernel_df.sort_values(by="ts", ascending=False, inplace=True)', "sweep order reversed"),
  ("C04", "merge_shift_back", U, 'kernel_df["end"].shift().cummax()', 'kernel_df["end"].shift(-1).cummax()', "compares with the next end"),
  ("C04", "pctg_scale", BA, 'result_df["idle_time_pctg"] = round(100 * result_df["idle_time"], 2)', 'result_df["idle_time_pctg"] = round(result_df["idle_time"], 2)', "not a percentage"),
@@ -187,7 +188,6 @@ EQUIV = [
  ("C17", "added_ge", TD, '"added": df.loc[df[col_control].eq(0) & df[col_test].gt(0)].index.tolist(),', '"added": df.loc[df[col_control].eq(0) & df[col_test].ge(0)].index.tolist(),', "a name absent from both traces has no row"),
  ("C04", "merge_ge", U, 'kernel_df["ts"] > kernel_df["end"].shift().cummax()', 'kernel_df["ts"] >= kernel_df["end"].shift().cummax()', "touching intervals: same measure whether merged or not"),
  ("C04", "merge_first_ts", U, '.agg({"ts": "min", "end": "max"})', '.agg({"ts": "first", "end": "max"})', "rows are ts-sorted: first == min"),
- ("C04", "device_gt0", BA, '            gpu_kernels = trace_df[trace_df["stream"].ne(-1)].copy()\n            idle_time, kernel_time', '            gpu_kernels = trace_df[trace_df["stream"].gt(0)].copy()\n            idle_time, kernel_time', "device stream ids are positive"),
  ("C14", "stable_single_key", TC, '.sort_values(by=["ts", "queue"], ascending=[True, False], kind="stable")', '.sort_values(by="ts", kind="stable")', "stable sort over the launches-first concat keeps launches before activities"),
  ("C09", "default_weight_key", CP, 'self.critical_path_nodes = nx.dag_longest_path(self, weight="weight")', 'self.critical_path_nodes = nx.dag_longest_path(self)', "networkx' default weight key is 'weight'"),
  ("C03", "loop_truthiness", OS_, "                if len(stack) > 0:\n                    ev = stack.pop(-1)", "                if stack:\n                    ev = stack.pop(-1)", "same guard"),
